@@ -26,6 +26,12 @@ func minBounds(v ssa.Value, depth int) map[string]bool {
 	if k, ok := constInt(v); ok {
 		out[fmt.Sprintf("const:%d", k)] = true
 	}
+	if o := origin(v); o != v {
+		// e.g. the chunk length computed by a private helper: the bounds of the value it returns
+		for k := range minBounds(o, depth+1) {
+			out[k] = true
+		}
+	}
 	switch x := v.(type) {
 	case *ssa.Convert:
 		// widening/narrowing between unsigned types of a value already known to fit: keep the operand's bounds
@@ -148,7 +154,7 @@ func lenOfDesc(d ssa.Value) []string {
 func ruleChunkAccounting(c *Ctx, rule string) {
 	c.rule(rule, "in every sender the loop slices one running buffer d: each callback call passes d[:n], the next iteration's buffer is d[n:] with the same n, an iteration without a send leaves d and first unchanged, a callback error is returned, and nil is returned only on n == len(d) after a successful callback")
 	w := c.W
-	impls := c.senderImpls()
+	impls := c.senderCores()
 	c.floor(rule, len(impls), 2, "sender implementations (send methods)")
 	for _, fn := range impls {
 		name := w.Short(fn)
@@ -179,7 +185,7 @@ func ruleChunkAccounting(c *Ctx, rule string) {
 			}
 			switch {
 			case !inLoopEdge:
-				if stripConv(e) != ssa.Value(s.param) {
+				if stripConv(e) != ssa.Value(s.param) && origin(e) != ssa.Value(s.param) {
 					okBuf = false
 					why = append(why, "entry edge of the buffer is "+desc(e)+", not the data parameter")
 				}
@@ -386,13 +392,51 @@ func ruleReserveBeforeSend(c *Ctx, rule string) {
 		okLoad := isLoad && strings.HasSuffix(calleeName(load), ".Load") && desc(load.Call.Args[0]) == desc(cas.Call.Args[0])
 		c.check(okLoad, rule, name+": CAS expects the loaded window", w.At(cas), "old = "+desc(wv), "the CAS's expected value "+desc(wv)+" is not a Load of the same window field")
 		sub, isSub := cas.Call.Args[2].(*ssa.BinOp)
-		okSub := isSub && sub.Op == token.SUB && sub.X == wv && sub.Y == s.n
+		okSub := isSub && sub.Op == token.SUB && sub.X == wv && (sub.Y == s.n || origin(sub.Y) == origin(s.n))
 		c.check(okSub, rule, name+": CAS reserves exactly the chunk", w.At(cas), "new = w - n", "the CAS's new value "+desc(cas.Call.Args[2])+" is not (loaded window - chunk length actually sent)")
 		// callback dominated by CAS success
 		dom := false
 		for _, f := range boolFactsAt(s.cb) {
 			if f.V == ssa.Value(cas) && f.True {
 				dom = true
+			}
+		}
+		if !dom {
+			// the reservation loop may live in a private helper that returns (n, nil) only on the CAS success edge, the
+			// callback then being reached only with that helper's error == nil
+			if ex, isEx := stripConv(s.n).(*ssa.Extract); isEx {
+				if hc, isC := ex.Tuple.(*ssa.Call); isC {
+					if h := helperCallee(hc); h != nil && cas.Parent() == h {
+						errIdx := h.Signature.Results().Len() - 1
+						okRet, nRet := true, 0
+						allInstrsLocal(h, func(in ssa.Instruction) {
+							ret, isR := in.(*ssa.Return)
+							if !isR || len(ret.Results) <= errIdx || !isNilConst(ret.Results[errIdx]) {
+								return
+							}
+							nRet++
+							good := false
+							for _, f := range boolFactsAt(ret) {
+								if f.V == ssa.Value(cas) && f.True {
+									good = true
+								}
+							}
+							if !good {
+								okRet = false
+							}
+						})
+						errOK := false
+						for _, f := range factsAt(s.cb) {
+							x, op, y, isCmp := cmpFact(f)
+							if isCmp && op == token.EQL && isNilConst(y) {
+								if e2, isE := stripConv(x).(*ssa.Extract); isE && e2.Tuple == ssa.Value(hc) && e2.Index == errIdx {
+									errOK = true
+								}
+							}
+						}
+						dom = okRet && nRet > 0 && errOK
+					}
+				}
 			}
 		}
 		c.check(dom, rule, name+": send only after a successful reservation", w.At(s.cb), "callback dominated by the CAS success edge", "the callback is not dominated by the success edge of the reservation CAS: bytes can be sent without credit (or credit reserved twice)")
@@ -820,6 +864,14 @@ func ruleCreditIdentity(c *Ctx, rule string) {
 		for _, f := range w.helperClosure(outer) {
 			cands = append(cands, f)
 			cands = append(cands, f.AnonFuncs...)
+			// methods deferred at exactly one place (the deferred literal turned into a method)
+			allInstrsLocal(f, func(in ssa.Instruction) {
+				if d, isD := in.(*ssa.Defer); isD {
+					if g := staticCallee(d); g != nil && w.soleSite(g) == ssa.CallInstruction(d) {
+						cands = append(cands, g)
+					}
+				}
+			})
 		}
 		for _, f := range cands {
 			allInstrs(f, func(in ssa.Instruction) {
@@ -937,6 +989,13 @@ func creditArgIs(v ssa.Value, m *ssa.Call, deq *ssa.Function) (bool, string) {
 	case *ssa.FreeVar:
 		if a, ok := freeVarBinding(b).(*ssa.Alloc); ok {
 			cell = a
+		}
+	case *ssa.Parameter:
+		// the amount handed to a (deferred) private helper by address: dequeue's own variable
+		if arg := crossParameter(b); arg != nil {
+			if a, ok := stripConv(arg).(*ssa.Alloc); ok {
+				cell = a
+			}
 		}
 	}
 	if cell == nil {
@@ -1152,7 +1211,7 @@ func (c *Ctx) closeCancelFlags(r *recvImpls) (FieldRef, FieldRef) {
 			var out FieldRef
 			allInstrs(fn, func(in ssa.Instruction) {
 				if fa, ok := in.(*ssa.FieldAddr); ok {
-					fr := FieldRef{typeNameOf(fa.X.Type()), fieldName(fa.X.Type(), fa.Field)}
+					fr := mkFieldRef(fa.X.Type(), fa.Field)
 					st := structOf(fa.X.Type())
 					if b, ok := st.Field(fa.Field).Type().Underlying().(*types.Basic); ok && b.Kind() == types.Bool {
 						out = fr
@@ -1392,6 +1451,22 @@ func ruleTokenProtocol(c *Ctx, rule1, rule2, rule3 string) {
 					if call, ok := stripConv(v).(*ssa.Call); ok && call.Call.IsInvoke() && call.Call.Method.Name() == "Err" {
 						if sel.Block().Dominates(at.Block()) {
 							retCtx = true
+						}
+					}
+					// the error of the private helper that holds the wait
+					if ex, isEx := stripConv(v).(*ssa.Extract); isEx {
+						if hc, isC := ex.Tuple.(*ssa.Call); isC {
+							if h := helperCallee(hc); h != nil && sel.Parent() == h {
+								allInstrsLocal(h, func(x ssa.Instruction) {
+									ret, isR := x.(*ssa.Return)
+									if !isR || ex.Index >= len(ret.Results) {
+										return
+									}
+									if ec, isE := stripConv(ret.Results[ex.Index]).(*ssa.Call); isE && ec.Call.IsInvoke() && ec.Call.Method.Name() == "Err" && sel.Block().Dominates(ret.Block()) {
+										retCtx = true
+									}
+								})
+							}
 						}
 					}
 				})
